@@ -23,7 +23,7 @@ def model_ops_for_prop_case(case):
     perms = list(itertools.permutations(range(len(glines)))) if len(glines) <= 4 else \
         [tuple(r.sample(range(len(glines)), len(glines))) for _ in range(8)]
     ops, exp = [], []
-    for p in perms[:24]:
+    for k, p in enumerate(perms[:24]):
         g = gfapy.Gfa(version=v, vlevel=1)
         ops.append(op("g.new", v)); exp.append("ok")
         ok = True
@@ -37,6 +37,14 @@ def model_ops_for_prop_case(case):
                 ok = False
                 break
             ops.append(op("g.add", glines[i])); exp.append(e)
+            if lib.ambiguous_placeholders(g):
+                ok = False
+                break
+            if k % 3 == 0 or len(glines) <= 5:
+                # the state between arrivals too (placeholders, what a placeholder link has taken from a path step)
+                o = lib.outcome(lib.obs_flat, g)
+                if o[0] == "ok" and "# INVALID" not in o[1]:
+                    ops.append(op("g.obs")); exp.append("ok " + o[1])
         if not ok:
             continue
         o = lib.outcome(lib.obs_flat, g)
